@@ -272,6 +272,17 @@ def shapes():
     S["ti_varsel2"] = Shape("ti_varsel2", [
         T("OwnedMut", "P2", mark=K("owned, ref_mut")), T("ByRef", "P2", mark=K("ref")), U("Nil", mark=K("owned")),
         N("NamedRef", F("P2", name="x"), mark=K("ref, ref_mut")), T("OwnedOnly", "P2", mark=K("owned"))])
+    # every variant names `owned` explicitly, such a variant FIRST: an explicitly selected owned accessor / conversion exists whatever
+    # the enum-wide default computed from the first attributed variant is.  (TryInto: a later reference-only variant stays unconstrained.)
+    OWN = {"unwrap": "owned", "try_unwrap": "owned", "try_into": "owned"}
+    S["owned_first"] = Shape("owned_first", [
+        T("Circle", "P1", mark=OWN), T("Rect", "P1", "P2", mark=OWN), T("Square", "P1", mark=OWN), U("Dot", mark=OWN),
+        T("ByRef", "P1", mark={"unwrap": "owned, ref", "try_unwrap": "owned, ref", "try_into": "ref"})])
+    # the bound of the type parameter lives in the WHERE clause (not inline): every generated impl must repeat it
+    S["generic_where"] = Shape("generic_where", [
+        T("Wrapped", F("Wrap<T>", "Wrap<P3>")), T("Both", F("Wrap<T>", "Wrap<P3>"), "P2"), T("Ref", F("&'a P3", "&'static P3")),
+        N("NamedBoth", F("Wrap<T>", "Wrap<P3>", name="w"), F("P2", name="p")), U("Nil")],
+        gdecl="<'a, T, const N: usize>", guse="<'static, P3, 2>", where="where T: Copy + 'a")
     # thorough-only shapes
     S["single"] = Shape("single", [T("Value", "P1")])
     S["triples"] = Shape("triples", [
@@ -768,6 +779,17 @@ def programs(tier):
     # variant-level kind selection of TryInto: every (variant, ref) and (variant, ref_mut) pair, (variant, owned) where it is settled
     add("tin", "ti_varsel", ("try_into",), "varsel")
     add("tin", "ti_varsel2", ("try_into",), "varsel")
+    # variants whose fields are ALL `#[try_into(ignore)]`d (tuple and named) next to real unit / empty variants: the `()` target
+    add("tin", "empties", ("try_into",), "all")
+    # explicitly `owned` variants, such a variant first
+    add("unw", "owned_first", ("unwrap",), "owned")
+    add("tun", "owned_first", ("try_unwrap",), "owned")
+    add("tin", "owned_first", ("try_into",), "varsel")
+    # bounds in a where clause
+    add("isv", "generic_where", ("is_variant",))
+    add("unw", "generic_where", ("unwrap",), "ref")
+    add("tun", "generic_where", ("try_unwrap",), "ref")
+    add("tin", "generic_where", ("try_into",), "all")
     if tier == "thorough":
         extra = ["single", "triples", "empties", "names2", "lifetimes"]
         for s in extra + ["generic_ti"]:
